@@ -705,21 +705,32 @@ def validateRequired (env : Env) (ctx : Ctx) (schema : Val) (skvs : List (Key ×
 /-- one validator instance validating one mapping (`validate(doc, update, normalize=False)`
     after `__init_processing`); `pre` = the instance's error list at that point (the errors
     of normalization when it ran on this instance), `unreq0` = its `_unrequired_by_excludes` -/
+def validateResolved (env : Env) (t : Tables) (rec : Rec) (ctx : Ctx) (skvs : List (Key × Val))
+    (doc : Val) (dkvs : List (Key × Val)) (upd : Bool) (pre : List Err) (unreq0 : List Key) : M (List Err) :=
+  match validateFields env t rec ctx (.dict skvs) skvs doc upd dkvs { errs := pre, unreq := unreq0 } with
+  | .error e => .error e
+  | .ok s =>
+    if upd then .ok s.errs
+    else
+      match validateRequired env ctx (.dict skvs) skvs doc dkvs s.unreq with
+      | .error e => .error e
+      | .ok req => .ok (s.errs ++ req)
+
+/-- the schema as every use site sees it: the field mapping (a name is looked up
+    in the schema registry) with every field's rule set dereferenced (a name is
+    looked up in the rules-set registry; what cannot be resolved stays as it is) -/
+def resolvedFields (env : Env) (schema : Val) : Option (List (Key × Val)) :=
+  match env.resolveSchema schema with
+  | some (.dict skvs) => some (skvs.map (fun kv => (kv.1, (env.resolveRulesSet kv.2).getD kv.2)))
+  | _ => none
+
 def validateMapping (env : Env) (t : Tables) (rec : Rec) (ctx : Ctx) (schema doc : Val) (upd : Bool)
     (pre : List Err) (unreq0 : List Key) : M (List Err) :=
   match doc with
   | .dict dkvs =>
-    match env.resolveSchema schema with
-    | some (.dict skvs) =>
-      match validateFields env t rec ctx schema skvs doc upd dkvs { errs := pre, unreq := unreq0 } with
-      | .error e => .error e
-      | .ok s =>
-        if upd then .ok s.errs
-        else
-          match validateRequired env ctx schema skvs doc dkvs s.unreq with
-          | .error e => .error e
-          | .ok req => .ok (s.errs ++ req)
-    | _ => raisePy "SchemaError" "__init_processing"
+    match resolvedFields env schema with
+    | some skvs => validateResolved env t rec ctx skvs doc dkvs upd pre unreq0
+    | none => raisePy "SchemaError" "__init_processing"
   | _ => raisePy "DocumentError" "__init_processing"
 
 end V
